@@ -149,8 +149,11 @@ Proof.
   destruct (Nat.eqb _ _) eqn:E; [|discriminate]. apply Some_inj in H. subst x.
   apply Nat.eqb_eq in E. rewrite !app_length, length_concat_pad in E. cbn [length b32] in E.
   unfold bytes, byte in *.
-  assert (Hn : (length srv <= 15)%nat) by (unfold u8 in E; lia).
-  assert (Hl : u8 (1 + u8 (N.of_nat (length srv) * 2)) = 1 + 2 * N.of_nat (length srv)) by (unfold u8; lia).
+  assert (Hn : (length srv <= 127)%nat).
+  { unfold u8 in E.
+    pose proof (N.mod_upper_bound (1 + (N.of_nat (length srv) * 2) mod 256) 256 ltac:(discriminate)). lia. }
+  assert (Hl : u8 (1 + u8 (N.of_nat (length srv) * 2)) = 1 + 2 * N.of_nat (length srv)).
+  { unfold u8. rewrite (N.mod_small (N.of_nat (length srv) * 2)) by lia. rewrite N.mod_small by lia. lia. }
   rewrite Hl. rewrite concat_pad_id by exact Hs. rewrite b32_n32. split.
   - unfold enc1. f_equal. unfold u8. f_equal. rewrite N.mod_small by lia. reflexivity.
   - unfold valid1. split; [lia|]. rewrite !app_length. cbn [length n32].
